@@ -260,6 +260,22 @@ fn main() {
                 }
             }
         }
+        "exec-plan" => {
+            // child side of C03's cross-process comparison: run a plan, print what happened as JSON
+            if args.len() < 4 {
+                usage();
+            }
+            let b = std::fs::read(&args[3]).expect("cannot read plan");
+            let plan: mv::plan::Plan = serde_json::from_slice(&b).expect("plan is not JSON");
+            let log = std::thread::Builder::new()
+                .name("s211".into())
+                .stack_size(256 << 20)
+                .spawn(move || mon::c03::record_plan(&plan, 211))
+                .unwrap()
+                .join()
+                .expect("exec thread died");
+            println!("{}", serde_json::to_string(&log).unwrap());
+        }
         "gen-corpus" => {
             // writes small seed inputs for the fuzz targets under <VERIF_ROOT>/corpus/<target>/
             use proptest::strategy::{Strategy, ValueTree};
